@@ -795,6 +795,16 @@ def _cmp_facts(fn):
             if tk in INT_MAX:
                 for v, tb in t["ts"]:
                     out.append((b, tb, "Eq", d_op, {"k": {"int": v, "ty": fn.locals[l]["ty"], "s": str(v)}}))
+                if len(t["ts"]) == 1 and t["o"] != t["ts"][0][1]:
+                    v = t["ts"][0][0]
+                    out.append((b, t["o"], "Ne", d_op, {"k": {"int": v, "ty": fn.locals[l]["ty"], "s": str(v)}}))
+            elif tk is None and len(pl) >= 2 and any(str(x).startswith("f:") for x in pl[1:]) and not any(str(x).startswith("d:") for x in pl[-1:]):
+                # a field matched against literal patterns:  match cfg { P { size: 0, .. } => .., p => .. }
+                for v, tb in t["ts"]:
+                    out.append((b, tb, "Eq", t["d"], {"k": {"int": v, "ty": fn.locals[l]["ty"], "s": str(v)}}))
+                if len(t["ts"]) == 1 and t["o"] != t["ts"][0][1]:
+                    v = t["ts"][0][0]
+                    out.append((b, t["o"], "Ne", t["d"], {"k": {"int": v, "ty": fn.locals[l]["ty"], "s": str(v)}}))
     # x.contains(&v) on a range literal:  on the true edge  lo <= v  and  v < hi  (or v <= hi)
     for c in fn.calls:
         m = re.search(r"ops::range::(Range|RangeInclusive|RangeFrom|RangeTo|RangeToInclusive)::<[^>]*>::contains$", c.path or "")
@@ -1193,7 +1203,12 @@ def evaluate_scope(chk, prog, scope_keys, rule="P", crates=("redproxy_rs",), ski
     for (f, e, what, root, desc, why) in pending:
         cands = []
         for i, ent in enumerate(TABLE):
-            if used.get(i, 0) >= ent.get("max", 1) or not re.search(ent["what"], what):
+            if used.get(i, 0) >= ent.get("max", 1):
+                continue
+            # `v[i]` on a Vec (Index::index) and on a slice (MIR bounds check) are the same panic: a helper taking `&[T]` instead of
+            # `&Vec<T>` changes the kind only
+            indexing = ("INDEX" in ent["what"] or "BoundsCheck" in ent["what"]) and ("K4:INDEX" in what or "K3:BoundsCheck" in what)
+            if not re.search(ent["what"], what) and not indexing:
                 continue
             same_fn = re.search(ent["fn"], f.key) is not None
             same_file = f.file in efiles.get(i, ())
